@@ -208,7 +208,8 @@ theorem symAt : (a : V ν) → SymAt q env a
       split
       · exact eqPairs_symm_of q env kv1 kv2 (symAtPairs kv1)
       · rw [inclF_eq_all_of q env kv1 kv2 (symAtPairs kv1), all_eq_inclF_of q env kv1 (symAtPairs kv1) kv2,
-          Bool.and_comm]
+          Bool.beq_comm (a := kv1.length), Bool.and_assoc, Bool.and_assoc,
+          Bool.and_comm (kv1.all fun p => hasMatch q env kv2 p)]
     | list ys s2 b2 => simp [V.eq, Bool.and_comm]
     | _ => simp [V.eq]
   | .arglist xs => fun b => by
@@ -223,6 +224,7 @@ theorem symAt : (a : V ν) → SymAt q env a
     cases b with
     | notOf w => simp only [V.eq]; exact symAt v w
     | _ => simp [V.eq]
+  | .parenNull => fun b => by cases b <;> simp [V.eq]
 theorem symAtList : (xs : List (V ν)) → ∀ x ∈ xs, SymAt q env x
   | [] => fun x hx => by simp at hx
   | y :: ys => fun x hx => by
@@ -305,7 +307,7 @@ theorem mapEq_refl_of (kv : List (V ν × V ν)) (h : ∀ p ∈ kv, ReflAt q env
   · split
     · simp only [Bool.and_eq_true, beq_self_eq_true, true_and]
       exact inclF_of_sub q env kv kv (fun p hp => ⟨hp, h p hp⟩)
-    · simp only [Bool.and_eq_true]
+    · simp only [Bool.and_eq_true, beq_self_eq_true, true_and]
       refine ⟨inclF_of_sub q env kv kv (fun p hp => ⟨hp, h p hp⟩), ?_⟩
       exact List.all_eq_true.mpr (fun p hp => hasMatch_of_mem q env kv p hp (h p hp).1 (h p hp).2)
 
@@ -339,6 +341,7 @@ theorem reflAt : (a : V ν) → V.noNaN a = true →
     have hq : q.argListNeverEqual = false := by simpa [V.noArgList] using ha
     simp only [ReflAt, V.eq, hq, Bool.false_eq_true, if_false]
     exact eqList_refl_of q env xs (reflAtList xs hn (Or.inl hq))
+  | .parenNull, _, _ => by simp [ReflAt, V.eq]
   | .notOf v, hn, ha => by
     simp only [V.noNaN] at hn
     have ha' : q.argListNeverEqual = false ∨ V.noArgList v = true := by simpa [V.noArgList] using ha
